@@ -20,7 +20,7 @@ use std::time::{Duration, Instant};
 
 pub const SHARDS: u64 = 16;
 /// How many earlier cases of a shard are saved with a failing case.
-const HISTORY_LEN: usize = 48;
+const HISTORY_LEN: usize = 256;
 
 pub const WATCHDOG_SECS: u64 = 20;
 
@@ -570,6 +570,7 @@ pub fn run<P: Property>(args: &RunArgs) -> i32 {
                         let bug: RefCell<Option<String>> = RefCell::new(None);
                         let history: RefCell<std::collections::VecDeque<P::Case>> =
                             RefCell::new(std::collections::VecDeque::new());
+                        let last_hist: RefCell<Vec<P::Case>> = RefCell::new(Vec::new());
                         let mut runner = TestRunner::new(cfg);
                         let strat = P::strategy(tier);
                         let slot = &slots[shard as usize];
@@ -586,8 +587,17 @@ pub fn run<P: Property>(args: &RunArgs) -> i32 {
                             let g = guarded_check::<P>(&case, Mode::Normal);
                             slot.started_ms.store(0, Ordering::Relaxed);
                             let counting = !failed.get();
-                            if counting && !matches!(g, Guarded::Out(Outcome::Fail(_))) {
+                            {
+                                // every judged case (shrinking attempts
+                                // included: they ran on this thread too) goes
+                                // into the ring; at each failure the ring as
+                                // it was *before* that case is kept, so the
+                                // history saved with the final (shrunk) case
+                                // is the one that preceded its failing run
                                 let mut h = history.borrow_mut();
+                                if matches!(g, Guarded::Out(Outcome::Fail(_))) {
+                                    *last_hist.borrow_mut() = h.iter().cloned().collect();
+                                }
                                 h.push_back(case.clone());
                                 if h.len() > HISTORY_LEN {
                                     h.pop_front();
@@ -680,7 +690,7 @@ pub fn run<P: Property>(args: &RunArgs) -> i32 {
                                 } else {
                                     stop.store(true, Ordering::Relaxed);
                                     out.failure = Some((case, r));
-                                    out.history = history.into_inner().into_iter().collect();
+                                    out.history = last_hist.into_inner();
                                 }
                             }
                             Err(TestError::Abort(reason)) => {
